@@ -128,7 +128,15 @@ func (cl *Client) Key(etype etype.EType, kvno int, krberr *messages.KRBError) (t
 			if err != nil {
 				return types.EncryptionKey{}, 0, fmt.Errorf("could not get PAData from KRBError to generate key from password: %v", err)
 			}
-			key, _, err := crypto.GetKeyFromPassword(cl.Credentials.Password(), krberr.CName, krberr.CRealm, etype.GetETypeID(), pas)
+			// cname and crealm are OPTIONAL in a KRB-ERROR: the default salt is the client's own name then
+			cname, crealm := krberr.CName, krberr.CRealm
+			if len(cname.NameString) < 1 {
+				cname = cl.Credentials.CName()
+			}
+			if crealm == "" {
+				crealm = cl.Credentials.Domain()
+			}
+			key, _, err := crypto.GetKeyFromPassword(cl.Credentials.Password(), cname, crealm, etype.GetETypeID(), pas)
 			return key, 0, err
 		}
 		key, _, err := crypto.GetKeyFromPassword(cl.Credentials.Password(), cl.Credentials.CName(), cl.Credentials.Domain(), etype.GetETypeID(), types.PADataSequence{})
